@@ -8,3 +8,12 @@ def register(REG):
         'C12': (filelock.c12, 'counter/depth balance on all paths (affine domain), outermost release, lock kind, no-op release, fd accounting under OSError, argument normalisation table, non-blocking/timed shapes'),
         'C13': (filelock.c13, 'no soft lock / unlink / pid file / exit handlers, open mode, kernel-only primitives'),
     })
+    from . import batcher
+    REG.update({
+        'C04': (batcher.c04, 'key matching of results to futures, Exception->raise, fan-out and missing-key sweeps on all paths, answered-once, dispatcher survival'),
+        'C09': (batcher.c09, 'cancellation barrier on shared futures, state-guarded and confined completion'),
+        'C10': (batcher.c10, 'size guard dominance and bulk bound, non-empty batches, semaphore region, FIFO containers and single assembler, batch-timeout plumbing'),
+        'C11': (batcher.c11, 'atomic lookup-or-create, miss-only enqueue, eviction on all exits with the configured delay, sharers never evict, default key'),
+        'C15': (batcher.c15, 'partial == option set for the three option decorators, option def-use chains, per-loop weak registry'),
+    })
+
